@@ -2,10 +2,11 @@
 //! (i) seeded interleavings of next() calls on one thread, in process;
 //! (ii) the threaded workload binary `verif_threads` (needs Send + Sync), natively;
 //! (iii) the same binary under Miri (UB + data-race interpreter) and, thorough, ThreadSanitizer;
-//! (iv) the `Send + Sync` probe, settled by the type checker.
+//! (iv) the `Send + Sync` probe, settled by the type checker;
+//! (v) a few evaluators run alone in fresh processes, and after other evaluators, against this process.
 
 use super::enumcase::EnumCase;
-use crate::child::{run_cmd, CmdResult};
+use crate::child::{self, run_cmd, ChildOutcome, CmdResult};
 use crate::conv::Combos;
 use crate::core::{Ctx, Report, Tier};
 use crate::drive::{self, trace_key, Scope, TraceKey};
@@ -585,6 +586,131 @@ fn tsan(ctx: &Ctx, report: &mut Report) {
     }
 }
 
+// ---------------------------------------------------------------- (v) alone in a fresh process
+//
+// "Depends only on its own flop, ranges and scope" also means: not on what the process did before. Process-wide state
+// that the FIRST evaluator of a process fixes for all later ones (a latch, a lazily built table keyed too coarsely)
+// cannot be seen by comparing runs inside one process whose history is already fixed. So a few evaluators - ordinary
+// ones, ones with an empty seat, one with weights 0 - are each run in fresh child processes: alone, after an evaluator
+// with an empty seat was stepped, and after an ordinary one was drained. All answers (order-insensitive fingerprint of
+// the complete traces, or the panic site) must agree with each other and with this process, which has thousands of
+// evaluators behind it. A change that breaks such an evaluator always (C02/C08's subject) gives the same answer
+// everywhere and raises no alarm here.
+
+fn alone_units(seed: u64) -> Vec<Unit> {
+    let mut v = Vec::new();
+    for i in 0..6usize {
+        let mut rng = Rng::derive(seed, "c15-alone", i as u64);
+        let flop = textured_flop(&mut rng, i);
+        let cards: Vec<u8> = rng.sample(52, 14).into_iter().map(|c| c as u8).collect();
+        let a = clustered_range(&mut rng, &cards, 4, WeightMode::Family);
+        let b = clustered_range(&mut rng, &cards, 3, WeightMode::Family);
+        let ranges: Vec<Combos> = match i {
+            0 => vec![a, b],
+            1 => vec![a, Vec::new()],
+            2 => vec![Vec::new()],
+            3 => vec![a],
+            4 => vec![a.iter().map(|(p, _)| (*p, 0.0)).collect(), b],
+            _ => vec![Vec::new(), b],
+        };
+        let case = EnumCase::collect(&format!("alone{}", i), flop, ranges);
+        let (ranges, cfg) = case.build().expect("collect case builds");
+        let from = rng.usize_below(POSITIONS - 40);
+        v.push(Unit { case, ranges, cfg, scope: (from_linear(from), from_linear(from + 1 + rng.usize_below(39))) });
+    }
+    v
+}
+
+fn unit_answer(u: &Unit) -> String {
+    drive::stepping(0);
+    drive::reset_budget();
+    let mut n = 0u64;
+    let mut sum = 0u64;
+    let mut xor = 0u64;
+    let r = catch(|| {
+        for sd in drive::evaluator(&u.cfg, &u.ranges, Some(u.scope)) {
+            let h = crate::util::hash_str(&format!("{:?}", trace_key(&sd)));
+            n += 1;
+            sum = sum.wrapping_add(h);
+            xor ^= crate::util::mix64(h);
+        }
+    });
+    match r {
+        Ok(()) => format!("{} showdowns, fingerprint {:016x}/{:016x}", n, sum, xor),
+        Err(p) => format!("panic at {}", crate::util::panic_site(&p).rsplit('/').next().unwrap_or("?")),
+    }
+}
+
+fn alone_child_body(case: &Json) -> Report {
+    let mut report = Report::new();
+    let seed = case.get("seed").and_then(|v| v.as_i128()).unwrap_or(0) as u64;
+    let index = case.get("index").and_then(|v| v.as_i128()).unwrap_or(0) as usize;
+    let prelude = case.get("prelude").and_then(|v| v.as_i128()).unwrap_or(0);
+    let units = alone_units(seed);
+    if index >= units.len() {
+        report.inconclusive("unknown unit");
+        return report;
+    }
+    match prelude {
+        1 => {
+            // an evaluator with an empty seat is the first one this process steps
+            let _ = catch(|| {
+                let mut it = drive::evaluator(&units[1].cfg, &units[1].ranges, None).into_iter();
+                let _ = it.next();
+                let _ = it.next();
+            });
+        }
+        2 => {
+            // an ordinary evaluator is drained first
+            let _ = unit_answer(&units[0]);
+        }
+        _ => {}
+    }
+    report.evaluations = 1;
+    report.set("alone_answer", Json::str(unit_answer(&units[index])));
+    report
+}
+
+fn alone_probe(ctx: &Ctx, report: &mut Report) {
+    let exe = match std::env::current_exe() {
+        Ok(e) => e,
+        Err(e) => {
+            report.inconclusive(format!("fresh-process probe: {}", e));
+            return;
+        }
+    };
+    let units = alone_units(ctx.seed);
+    for (i, u) in units.iter().enumerate() {
+        let here = unit_answer(u);
+        let mut answers: Vec<(String, String)> = vec![("in this process, after thousands of other evaluators".to_string(), here)];
+        for (prelude, label) in [(0, "alone in a fresh process"), (1, "in a fresh process after an evaluator with an empty seat was stepped"), (2, "in a fresh process after an ordinary evaluator was drained")] {
+            let case = Json::obj().set("kind", Json::str("alone")).set("seed", Json::Int(ctx.seed as i128)).set("index", Json::Int(i as i128)).set("prelude", Json::Int(prelude));
+            report.count("fresh_process_runs", 1);
+            match child::run_case(&exe, "C15", &case, 8 << 20, Duration::from_secs(300)) {
+                ChildOutcome::Reported(doc) => match doc.get("extra").and_then(|e| e.get("alone_answer")).and_then(|a| a.as_str()) {
+                    Some(a) => answers.push((label.to_string(), a.to_string())),
+                    None => report.inconclusive(format!("fresh-process probe: no answer from the child for unit {} ({})", i, label)),
+                },
+                ChildOutcome::Crashed { signal, code, stack_overflow, .. } => answers.push((label.to_string(), format!("process died (signal {:?}, code {:?}, stack overflow {})", signal, code, stack_overflow))),
+                ChildOutcome::Timeout { after_s } => report.inconclusive(format!("fresh-process probe timed out after {:.0}s", after_s)),
+                ChildOutcome::SpawnFailed(e) => report.inconclusive(format!("fresh-process probe: {}", e)),
+            }
+        }
+        report.evaluations += answers.len() as u64;
+        if let Some(other) = answers.iter().find(|(_, a)| *a != answers[0].1) {
+            report.violate(
+                format!("alone:{}:{}", ctx.seed, i),
+                format!(
+                    "one evaluator ({}, scope {:?}) answers differently depending on what its process did before: {}: {}; {}: {} [all: {:?}]",
+                    super::c02::cfg_short(&u.cfg), u.scope, answers[0].0, answers[0].1, other.0, other.1, answers
+                ),
+                Json::obj().set("kind", Json::str("alone")).set("seed", Json::Int(ctx.seed as i128)).set("index", Json::Int(i as i128)).set("prelude", Json::Int(0)),
+            );
+        }
+    }
+    child::cleanup_scratch();
+}
+
 pub fn run(ctx: &Ctx) -> Report {
     let n = ctx.tier.pick(2000u64, 50_000);
     let seed = ctx.seed;
@@ -593,6 +719,7 @@ pub fn run(ctx: &Ctx) -> Report {
     for r in results {
         report.merge(r);
     }
+    alone_probe(ctx, &mut report);
     let threads_ok = sendsync(&mut report);
     if threads_ok {
         native_threads(ctx, &mut report);
@@ -632,6 +759,15 @@ pub fn replay(case: &Json, ctx: &Ctx) -> Report {
         }
         Some("sendsync") => {
             sendsync(&mut report);
+        }
+        Some("alone") => {
+            if ctx.in_child {
+                return alone_child_body(case);
+            }
+            let seed = case.get("seed").and_then(|v| v.as_i128()).unwrap_or(0) as u64;
+            let mut c = Ctx::new("C15", ctx.tier, seed);
+            c.in_child = false;
+            alone_probe(&c, &mut report);
         }
         Some("threads") => match case.get("engine").and_then(|e| e.as_str()) {
             Some("miri") => miri(ctx, &mut report),
